@@ -79,6 +79,10 @@ impl SharedFile {
     pub fn new(bytes: Vec<u8>) -> SharedFile {
         SharedFile { data: Arc::new(Mutex::new(bytes)), pos: 0 }
     }
+    /// another handle on the same bytes
+    pub fn alias(&self) -> SharedFile {
+        SharedFile { data: self.data.clone(), pos: 0 }
+    }
     pub fn snapshot(&self) -> Vec<u8> {
         self.data.lock().unwrap().clone()
     }
